@@ -19,13 +19,26 @@ import (
 	"github.com/shopspring/decimal"
 )
 
+type stEff struct {
+	C string
+	V int // scale 100
+}
+
 type stRow struct {
-	Z    int
-	Amt  int // signed effect on the import account, scale 100
-	Fee  int
-	Cur  string
-	Text string
-	Bal  int
+	Z     int
+	Amt   int // signed effect on the import account, scale 100
+	Fee   int
+	Cur   string
+	Text  string
+	Bal   int
+	Kind  string  // format-specific row type (brokerage formats)
+	Extra []stEff // further effects on the import account (securities bought/sold, the other leg of a conversion)
+}
+
+// stPrice is a price the statement itself carries (scale 100 after the importer's rounding).
+type stPrice struct {
+	Z   int
+	Raw int // value at scale 10^6 as written in the statement
 }
 
 type importerSpec struct {
@@ -37,6 +50,10 @@ type importerSpec struct {
 	Latin1  bool
 	Bals    bool // the statement carries running balances that become assertions
 	Write   func(rows []stRow) []byte
+	Kinds   []string                                            // row types of brokerage formats
+	Finals  bool                                                // the statement carries closing balances per commodity (asserted at its end date)
+	WriteX  func(rows []stRow, finals []stEff, endZ int) []byte // writer for Finals formats
+	Prices  func(prices []stPrice) []byte                       // price-only formats
 }
 
 func amt2(v int) string { return kj.Dec(v, 100) }
@@ -199,20 +216,56 @@ func abs(x int) int {
 
 var textClasses = []string{"plain text", "with \"double\" quotes", "semi;colon, and comma", "Ünïcödé Straße", "  leading blanks", "tab\there", "trailing backslash \\", "O'Brien & Sons #1 //x"}
 
-func observeImport(bin, root string, id int, im importerSpec, rows []stRow) map[string]any {
+type impJob struct {
+	im     importerSpec
+	rows   []stRow
+	prices []stPrice
+	start  map[string]int // opening balance per commodity (booked before the statement so that carried balances hold)
+	finals []stEff
+	endZ   int
+	args   []string
+	fromZ  int
+}
+
+func observeImport(bin, root string, id int, jb impJob) map[string]any {
+	im, rows := jb.im, jb.rows
 	dir := filepath.Join(root, fmt.Sprintf("m%d", id))
 	os.RemoveAll(dir)
 	os.MkdirAll(dir, 0o755)
 	defer os.RemoveAll(dir)
-	st := im.Write(rows)
+	var st []byte
+	switch {
+	case im.Prices != nil:
+		st = im.Prices(jb.prices)
+	case im.WriteX != nil:
+		st = im.WriteX(rows, jb.finals, jb.endZ)
+	default:
+		st = im.Write(rows)
+	}
 	os.WriteFile(filepath.Join(dir, "statement.input"), st, 0o644)
-	r := core.Run(core.RunOpts{Dir: dir, Timeout: 30 * time.Second}, bin, append(append([]string{"import", im.Name}, im.Args...), "statement.input")...)
-	rws, bals := []any{}, []any{}
+	r := core.Run(core.RunOpts{Dir: dir, Timeout: 30 * time.Second}, bin, append(append(append([]string{"import", im.Name}, im.Args...), jb.args...), "statement.input")...)
+	rws, bals, eprices := []any{}, []any{}, []any{}
 	lastBal := map[string]map[string]any{}
 	for _, x := range rows {
-		rws = append(rws, map[string]any{"z": x.Z, "amt": x.Amt, "fee": x.Fee, "cur": x.Cur})
+		extra := []any{}
+		for _, e := range x.Extra {
+			extra = append(extra, map[string]any{"c": e.C, "v": e.V})
+		}
+		rws = append(rws, map[string]any{"z": x.Z, "amt": x.Amt, "fee": x.Fee, "cur": x.Cur, "extra": extra})
 		if im.Bals { // the statement carries a balance per row; the last one per (date, currency) becomes an assertion
 			lastBal[fmt.Sprintf("%d/%s", x.Z, x.Cur)] = map[string]any{"z": x.Z, "cur": x.Cur, "bal": x.Bal}
+		}
+	}
+	if im.Finals { // closing balances per commodity, asserted at the end of the statement period
+		for _, f := range jb.finals {
+			if f.V != 0 {
+				lastBal[fmt.Sprintf("%d/%s", jb.endZ, f.C)] = map[string]any{"z": jb.endZ, "cur": f.C, "bal": f.V}
+			}
+		}
+	}
+	for _, p := range jb.prices { // the importer skips zero values and days before --from, and rounds to cents
+		if p.Raw != 0 && p.Z >= jb.fromZ {
+			eprices = append(eprices, map[string]any{"z": p.Z, "p": (p.Raw + 5000) / 10000, "c": "Viac", "t": "CHF"})
 		}
 	}
 	var keys []string
@@ -223,8 +276,8 @@ func observeImport(bin, root string, id int, im importerSpec, rows []stRow) map[
 	for _, k := range keys {
 		bals = append(bals, lastBal[k])
 	}
-	obs := map[string]any{"exit": r.Exit, "parses": false, "accepted": false, "fixpoint": false, "trx": []any{}, "asserts": []any{}, "others": 0}
-	cs := map[string]any{"id": id, "importer": im.Name, "rows": rws, "bals": bals, "obs": obs, "statement": string(st), "stdout": r.Stdout, "stderr": r.Stderr}
+	obs := map[string]any{"exit": r.Exit, "parses": false, "accepted": false, "fixpoint": false, "trx": []any{}, "asserts": []any{}, "prices": []any{}, "others": 0}
+	cs := map[string]any{"id": id, "importer": im.Name, "rows": rws, "bals": bals, "prices": eprices, "obs": obs, "statement": string(st), "stdout": r.Stdout, "stderr": r.Stderr}
 	if r.Exit != 0 {
 		return cs
 	}
@@ -241,7 +294,7 @@ func observeImport(bin, root string, id int, im importerSpec, rows []stRow) map[
 			return
 		}
 		obs["parses"] = true
-		trx, asserts := []any{}, []any{}
+		trx, asserts, prices := []any{}, []any{}, []any{}
 		others := 0
 		for _, d := range f.Directives {
 			switch t := d.Directive.(type) {
@@ -261,13 +314,18 @@ func observeImport(bin, root string, id int, im importerSpec, rows []stRow) map[
 						eff[b.Commodity.Extract()] -= v
 					}
 				}
-				if len(eff) == 1 {
-					for c, v := range eff {
-						trx = append(trx, map[string]any{"z": z, "cur": c, "eff": v})
+				var cs []string
+				for c, v := range eff {
+					if v != 0 {
+						cs = append(cs, c)
 					}
-				} else {
-					trx = append(trx, map[string]any{"z": z, "cur": "?", "eff": len(eff)})
 				}
+				sort.Strings(cs)
+				effs := []any{}
+				for _, c := range cs {
+					effs = append(effs, map[string]any{"c": c, "v": eff[c]})
+				}
+				trx = append(trx, map[string]any{"z": z, "effs": effs})
 			case directives.Assertion:
 				z, _ := parseYMD(t.Date.Extract())
 				for _, b := range t.Balances {
@@ -275,24 +333,36 @@ func observeImport(bin, root string, id int, im importerSpec, rows []stRow) map[
 					asserts = append(asserts, map[string]any{"z": z, "cur": b.Commodity.Extract(), "bal": int(q.Shift(2).IntPart())})
 				}
 			case directives.Price:
+				z, _ := parseYMD(t.Date.Extract())
+				q, _ := decimal.NewFromString(t.Price.Extract())
+				pv := -1 // a price with more than two decimals is not what the statement carries
+				if q.Shift(2).Equal(q.Shift(2).Truncate(0)) {
+					pv = int(q.Shift(2).IntPart())
+				}
+				prices = append(prices, map[string]any{"z": z, "p": pv, "c": t.Commodity.Extract(), "t": t.Target.Extract()})
 			default:
 				others++
 			}
 		}
-		obs["trx"], obs["asserts"], obs["others"] = trx, asserts, others
+		obs["trx"], obs["asserts"], obs["prices"], obs["others"] = trx, asserts, prices, others
 	}()
 	if obs["parses"] == true {
 		// (b) once the accounts are opened: accepted, and re-printed unchanged
-		open := fmt.Sprintf("2000-01-01 open %s\n2000-01-01 open Expenses:TBD\n2000-01-01 open Expenses:Fees\n\n", im.Account)
+		open := "2000-01-01 open Expenses:TBD\n2000-01-01 open Expenses:Fees\n2000-01-01 open Income:Interest\n2000-01-01 open Income:Dividends\n2000-01-01 open Expenses:Tax\n2000-01-01 open Expenses:Trading\n\n"
+		if im.Account != "" {
+			open = fmt.Sprintf("2000-01-01 open %s\n", im.Account) + open
+		}
 		// revolut2's assertions need the opening balance: book it so that the first asserted balance holds
 		pre := ""
-		if im.Bals {
-			first := map[string]bool{}
-			for _, x := range rows {
-				if !first[x.Cur] {
-					first[x.Cur] = true
-					start := x.Bal - x.Amt + x.Fee
-					pre += fmt.Sprintf("2000-01-02 \"opening\"\nExpenses:TBD %s %s %s\n\n", im.Account, amt2(start), x.Cur)
+		if im.Bals || im.Finals {
+			var cs []string
+			for c := range jb.start {
+				cs = append(cs, c)
+			}
+			sort.Strings(cs)
+			for _, c := range cs {
+				if jb.start[c] != 0 {
+					pre += fmt.Sprintf("2000-01-02 \"opening\"\nExpenses:TBD %s %s %s\n\n", im.Account, amt2(jb.start[c]), c)
 				}
 			}
 		}
@@ -316,27 +386,58 @@ func observeImport(bin, root string, id int, im importerSpec, rows []stRow) map[
 
 func C13(c *core.Ctx) {
 	c.Ev.Level = "exploration"
-	c.Set("rule", "abstract statements (1-8 booking rows: dates, signs, amounts with two decimals up to 10^6, 1-3 currencies where the format allows, fees and running balances where the format carries them, free text of 8 classes incl. double quotes, separators, Unicode, leading blanks, tabs) rendered by one format writer per covered importer (ch.postfinance, ch.supercard, ch.swisscard, ch.swisscard2, ch.cumulus, revolut, revolut2); uncovered importers: com.wise, ch.viac, ch.swissquote, us.interactivebrokers (only their repository statements are exercised, by C06); distinct by statement bytes; non-trivial = >= 2 rows and >= 1 negative amount or special-character text")
-	c.Trusted("TLC + Json module", "the four statement writers (the only format-specific harness code)", "knut's parser/checker/printer as readers of the importer output (cross-checked against the abstract rows)")
+	c.Set("rule", "abstract statements (1-8 booking rows: dates, signs, amounts with two decimals up to 10^6, 1-3 currencies where the format allows, fees, running or closing balances where the format carries them, free text of 8 classes incl. double quotes, separators, Unicode, leading blanks, tabs; brokerage rows: transfers, interest, custody fees, dividends with and without withholding tax, purchases and sales of whole shares, currency conversions with a base-currency commission, cancelled transfers; price-only statements: 1-12 daily values with sub-cent digits, zeros and an optional --from) rendered by one format writer per importer (all 11: ch.postfinance, ch.supercard, ch.swisscard, ch.swisscard2, ch.cumulus, revolut, revolut2, ch.swissquote, us.interactivebrokers, com.wise, ch.viac); not generated: com.wise rows that pay out of a conversion (the importer emits two transactions for them by design); distinct by statement bytes; non-trivial = >= 2 rows / values")
+	c.Trusted("TLC + Json module", "the eleven statement writers (the only format-specific harness code)", "knut's parser/checker/printer as readers of the importer output (cross-checked against the abstract rows)")
 	c.MC("MC_Lifecycle", c.TierCfg("MC_Lifecycle"), 16, 40*time.Minute)
 	bin := c.Knut("")
 	root := filepath.Join(c.Work, "c13")
 	os.MkdirAll(root, 0o755)
 	rng := rand.New(rand.NewSource(c.Seed))
 	per := c.Pick(50, 1200)
-	type job struct {
-		im   importerSpec
-		rows []stRow
-	}
-	var jobs []job
-	for _, im := range importers {
+	var jobs []impJob
+	all := append(append([]importerSpec{}, importers...), brokerImporters...)
+	for _, im := range all {
 		for k := 0; k < per; k++ {
+			if im.Prices != nil { // price-only statement: a run of daily values, some zero, some with sub-cent digits
+				n := 1 + rng.Intn(12)
+				z := 18300 + rng.Intn(200)
+				jb := impJob{im: im}
+				for i := 0; i < n; i++ {
+					raw := rng.Intn(9000000) * 1000
+					switch rng.Intn(5) {
+					case 0:
+						raw = 0
+					case 1:
+						raw = rng.Intn(2000000000)
+					case 2:
+						raw = rng.Intn(200000)*10000 + []int{4999, 5000, 5001, 9999}[rng.Intn(4)]
+					}
+					jb.prices = append(jb.prices, stPrice{Z: z + i, Raw: raw})
+				}
+				if k%3 == 1 {
+					jb.fromZ = z + rng.Intn(n+1)
+					jb.args = []string{"--from", ymd(jb.fromZ)}
+				}
+				jobs = append(jobs, jb)
+				continue
+			}
 			n := 1 + rng.Intn(8)
 			curs := []string{"CHF"}
 			if im.Multi {
 				curs = []string{"CHF", "EUR", "USD"}[:1+rng.Intn(3)]
 			}
 			bal := map[string]int{}
+			start := map[string]int{}
+			touch := func(c string) {
+				if _, ok := bal[c]; !ok {
+					if isCurrency(c) {
+						bal[c] = 50000 + rng.Intn(100000)
+					} else {
+						bal[c] = 100 * rng.Intn(20)
+					}
+					start[c] = bal[c]
+				}
+			}
 			var rows []stRow
 			z := 18300 + rng.Intn(200)
 			for i := 0; i < n; i++ {
@@ -359,33 +460,101 @@ func C13(c *core.Ctx) {
 				if im.Fee && rng.Intn(3) == 0 {
 					r.Fee = 1 + rng.Intn(300)
 				}
-				if _, ok := bal[cur]; !ok {
-					bal[cur] = 50000 + rng.Intn(100000)
+				if len(im.Kinds) > 0 {
+					r.Kind = im.Kinds[rng.Intn(len(im.Kinds))]
+					other := []string{"CHF", "EUR", "USD"}[rng.Intn(3)]
+					switch r.Kind {
+					case "dividend":
+						r.Amt = 1 + abs(r.Amt)
+					case "custody", "tax":
+						r.Amt = -1 - abs(r.Amt)%20000
+					case "trade": // whole shares; a purchase costs money, a sale brings money
+						sh := 1 + rng.Intn(40)
+						if rng.Intn(8) == 0 {
+							sh = 1000 + rng.Intn(3000)
+						}
+						if abs(r.Amt) < sh {
+							r.Amt = sh * (1 + rng.Intn(500))
+						}
+						if rng.Intn(2) == 0 {
+							r.Amt, r.Extra = -abs(r.Amt), []stEff{{stockSyms[rng.Intn(len(stockSyms))], 100 * sh}}
+						} else {
+							r.Amt, r.Extra = abs(r.Amt), []stEff{{stockSyms[rng.Intn(len(stockSyms))], -100 * sh}}
+						}
+						if im.Finals {
+							r.Fee = rng.Intn(500)
+						}
+					case "forex": // credit in cur, debit in another currency (plus a commission in the base currency)
+						for other == cur {
+							other = []string{"CHF", "EUR", "USD"}[rng.Intn(3)]
+						}
+						r.Amt = abs(r.Amt)
+						r.Extra = []stEff{{other, -(1 + rng.Intn(300000))}}
+						if im.Finals {
+							if rng.Intn(2) == 0 { // sold cur, bought the other
+								r.Amt, r.Extra[0].V = -r.Amt, -r.Extra[0].V
+							}
+							if rng.Intn(3) > 0 {
+								r.Extra = append(r.Extra, stEff{"CHF", -(1 + rng.Intn(400))})
+							}
+						}
+					case "convert":
+						for other == cur {
+							other = []string{"CHF", "EUR", "USD"}[rng.Intn(3)]
+						}
+						r.Amt = -abs(r.Amt)
+						r.Extra = []stEff{{other, 1 + rng.Intn(300000)}}
+					}
 				}
+				touch(cur)
 				bal[cur] += r.Amt - r.Fee
+				for _, e := range r.Extra {
+					touch(e.C)
+					bal[e.C] += e.V
+				}
 				r.Bal = bal[cur]
 				rows = append(rows, r)
 			}
-			jobs = append(jobs, job{im, rows})
+			jb := impJob{im: im, rows: rows, start: start, endZ: z + rng.Intn(3)}
+			var cs []string
+			for c := range bal {
+				cs = append(cs, c)
+			}
+			sort.Strings(cs)
+			for _, c := range cs {
+				jb.finals = append(jb.finals, stEff{c, bal[c]})
+			}
+			jobs = append(jobs, jb)
 		}
 	}
 	cases := make([]map[string]any, len(jobs))
-	core.Parallel(len(jobs), func(i int) { cases[i] = observeImport(bin, root, i+1, jobs[i].im, jobs[i].rows) })
+	core.Parallel(len(jobs), func(i int) { cases[i] = observeImport(bin, root, i+1, jobs[i]) })
 	nt := 0
 	for i := range jobs {
-		if len(jobs[i].rows) >= 2 {
+		if len(jobs[i].rows) >= 2 || len(jobs[i].prices) >= 2 {
 			nt++
 		}
 	}
 	c.Add("evaluations", len(cases))
 	c.Add("distinct_nontrivial", nt)
-	c.Set("importers_covered", []string{"ch.cumulus", "ch.postfinance", "ch.supercard", "ch.swisscard", "ch.swisscard2", "revolut", "revolut2"})
-	c.Set("importers_uncovered", []string{ "com.wise", "ch.viac", "ch.swissquote", "us.interactivebrokers"})
+	var names []string
+	for _, im := range all {
+		names = append(names, im.Name)
+	}
+	c.Set("importers_covered", names)
+	c.Set("importers_uncovered", []string{})
 	c.Sample(map[string]any{"importer": cases[0]["importer"], "statement": cases[0]["statement"], "output": cases[0]["stdout"]})
+	seen := map[string]bool{}
+	for i, cs := range cases {
+		if n := fmt.Sprint(cs["importer"]); jobs[i].im.Kinds != nil && !seen[n] && len(jobs[i].rows) >= 3 {
+			seen[n] = true
+			c.Sample(map[string]any{"importer": n, "statement": cs["statement"], "output": cs["stdout"]})
+		}
+	}
 	c.JudgeAndReport("Trace_Importer", "Trace_Importer.cfg", cases, 16,
 		func(old map[string]any) map[string]any {
 			id := old["id"].(int)
-			return observeImport(bin, root, id, jobs[id-1].im, jobs[id-1].rows)
+			return observeImport(bin, root, id, jobs[id-1])
 		},
 		func(cs map[string]any) (string, string) {
 			sig := fmt.Sprintf("import:%v:%v", cs["importer"], cs["why"])
